@@ -635,6 +635,23 @@ func TestVerif_C19_root_spellings(t *testing.T) {
 				if len(want) > 0 {
 					r.NT()
 				}
+				// how "//" and "/./" inside the root are printed is not the property's business; ".." is: it is resolved by the
+				// kernel AFTER symlinks, so it must not be collapsed lexically
+				norm := func(ls []string) []string {
+					out := make([]string, len(ls))
+					for i, l := range ls {
+						for strings.Contains(l, "//") {
+							l = strings.ReplaceAll(l, "//", "/")
+						}
+						for strings.Contains(l, "/./") {
+							l = strings.ReplaceAll(l, "/./", "/")
+						}
+						out[i] = l
+					}
+					sort.Strings(out)
+					return out
+				}
+				got, want = norm(got), norm(want)
 				if strings.Join(got, "\n") != strings.Join(want, "\n") {
 					r.Violation("root-spelling-changes-listing", map[string]any{"walker": walker, "walker_skip": skip, "canonical_root": canonical, "root": sp, "got": got, "want": want})
 				}
